@@ -24,18 +24,40 @@ CLAIMED = {
     'C14': ('order-cell table equality (location_test)', 'All lon/lat missing combinations up to length 3, default / custom / degenerate boxes, range_max absent / given / zero, every cell of lon and lat relative to the box edges and of the hop distance relative to range_max; shape and bbox rejection.', 'geodesic distance uninterpreted.', '4 C14'),
 }
 
-NOT_YET = {
-    'C04': 'check under construction (not yet registered)',
-    'C05': 'check under construction (not yet registered)',
-    'C06': 'check under construction (not yet registered)',
-    'C07': 'check under construction (not yet registered)',
-    'C15': 'check under construction (not yet registered)',
-    'C16': 'check under construction (not yet registered)',
-    'C17': 'check under construction (not yet registered)',
-    'C18': 'check under construction (not yet registered)',
-    'C19': 'check under construction (not yet registered)',
-    'C20': 'check under construction (not yet registered)',
-}
+CLAIMED.update({
+    'C04': ('abstract interpretation of qartod_compare / aggregate / PandasStore.compute_aggregate on a finite flag domain',
+            'Exhaustive over k<=3 vectors x {1,2,3,4,9, non-flag, masked} per position (+ two-point vectors): result = precedence maximum, MISSING when nothing remains, unmasked, inputs untouched; aggregate() and compute_aggregate() use all results and append one roll-up.',
+            'k>3 follows only from the symmetric structure; numpy where/== on masked arrays as modelled.', '4 C04'),
+    'C05': ('abstract interpretation of the five stream front ends + Config + Call.run; flag-expression equivalence with direct calls',
+            'For windows absent / closed / half-open / empty / covering / between timestamps / several contexts, tables with and without auxiliary axes and with a non-default row index, neighbour- and time-dependent tests: the flags, subset mask and returned axis arrays of every (context, stream, test) equal a direct call on the rows starting <= t < ending. XarrayStream window handling is a recorded known finding.',
+            'DataFrame / xarray containers are stubs (sa/models_xr.py): pandas / xarray selection semantics trusted as modelled; multi-dimensional variables not covered.', '4 C05'),
+    'C06': ('abstract interpretation of collect_results_list / collect_results_dict on interpreted stream output',
+            'Disjoint window layouts x yield orders x two front ends x tables with / without axes: one result per (stream, module, test), right rows, uncovered rows masked / UNKNOWN, list and dict forms agree, data and axes equal the source, order independent; synthetic results differing only in stream / module / test stay separate. Absent-axis crash is a recorded known finding.',
+            'numpy masked_all / boolean scatter as modelled.', '4 C06'),
+    'C07': ('abstract interpretation of Config / ContextConfig / load_config_as_dict / load_config_from_xarray over layouts x carriers',
+            '11 logical configurations x 4 layouts x 12-14 carriers: the set of (stream, module, test, parameters, window, region) calls equals the configuration; unknown modules / tests skipped; default stream key honoured; invalid sources rejected. The parameterless-test stream mapping is a recorded known finding.',
+            'Parsers are modelled by what they accept (sa/models_io.py); equality of what ruamel.yaml / json / xarray parse is trusted, not decided.', '4 C07'),
+    'C15': ('abstract interpretation under every modelled carrier; flag-expression equivalence with the reference carrier',
+            'Data: list with None, list / tuple with NaN, ndarray, pandas Series, masked array; time: datetime64[ns|s], epoch list / array, Series and DatetimeIndex naive / UTC, Python datetimes; spans list / tuple; all tests. Masked-array inputs (mask dropped) and pressure_increasing_test([.., None, ..]) are recorded known findings.',
+            'Carrier objects are models (attribute sets, dtype ladders); that numpy / pandas convert real carriers as modelled is trusted; dask arrays not modelled.', '4 C15'),
+    'C16': ('joint order-cell comparison of the flag expressions under loose vs strict parameters',
+            'Every threshold-driven test, ordered parameter pairs for each nesting the property names (incl. adding a suspect threshold, zero thresholds): severity never decreases, UNKNOWN / MISSING cells coincide; disagreements confirmed by exact rational witnesses.',
+            'parameter pairs are representatives; universal over data values.', '4 C16'),
+    'C17': ('symbolic transformation of the inputs + equivalence of flag expressions; dependence stencil of each output',
+            'x -> x+d (d symbolic), x -> -x, t -> t+D, joint data+span shift, series reversal (spike); data atoms of each flag within the neighbourhood table; making one observation missing leaves flags outside its neighbourhood unchanged.',
+            'float rounding excluded as in the property (dyadic values); lengths 3..5 (6 thorough).', '4 C17'),
+    'C18': ('abstract interpretation of Config / Call.run / stream front ends with one failing entry of every kind',
+            'Nine fault kinds x positions (first / last / other stream / second context) x four front ends x two tables: the run completes, the failing entry contributes nothing, every healthy result is equivalent to the healthy-only run.',
+            'same stubs as C05.', '4 C18'),
+    'C19': ('regex AST analysis (re._parser) of cf_safe_name + abstract interpretation of PandasStore on interpreted stream output',
+            'For all strings: substitution class = complement of [A-Za-z0-9_], replacement CF-safe, leading-digit guard; for concrete runs with illegal stream ids: all write_data / write_axes / include / exclude combinations (by stream id, test name, function): exact column set, CF-safe names, values, rows, roll-up.',
+            'pandas DataFrame column assignment as modelled.', '4 C19'),
+    'C20': ('abstract interpretation of fx_parser with a pyparsing model; identity of symbolic results with an independent arithmetic evaluator',
+            'Systematic expression family (operator pairs / triples, parenthesisations, unary minus, chains) with symbolic statistics; history independence across failed parses; validator accept / reject table; create_config section wiring and _get_stats mapping.',
+            'pyparsing semantics modelled (sa/models_pp.py, validated at development time against the real library); spline / subsetting numerics of create_config not decided.', '4 C20'),
+})
+
+NOT_YET = {}
 
 
 def main():
